@@ -637,4 +637,166 @@ theorem closed_loop_da_same_mid_partial {req : Dgram} (hr : SReq req) (s0 : Serv
     (start_J hr hq c0 hidle hfresh now0 T) hok hlate (fun h => by cases h)
   exact conclude_of_phase hj h1 h2 h3
 
+/-! ### transferred to the harness loop `Sim.run` (through `sim_run_is_sys_run`) -/
+
+theorem nDelivered_erase (r : Dgram) (es : List SysEv) : nDelivered r (es.map SysEv.erase) = nDelivered r es := by
+  unfold nDelivered
+  rw [List.countP_map]
+  congr 1
+  funext e
+  cases e <;> rfl
+
+theorem isEAckS_erase (req : Dgram) (e : SysEv) : isEAckS req e.erase ↔ isEAckS req e := by cases e <;> exact Iff.rfl
+
+theorem exists_erase {p : SysEv → Prop} (hp : ∀ e, p e.erase ↔ p e) (es : List SysEv) :
+    (∃ e ∈ es, p e) → ∃ e ∈ es.map SysEv.erase, p e := by
+  rintro ⟨e, he, h⟩
+  exact ⟨e.erase, List.mem_map.mpr ⟨e, he, rfl⟩, (hp e).mpr h⟩
+
+/-- **`closed_loop_dn` read on `Sim.run`**: one Confirmable request to a `dn+` server, every scripted delay below `Δ`: the
+    trace gains exactly one `rsp@` entry per delivery of the NON response among the events of the run, at most one `nack@`
+    entry, and when the client is quiet at the end it holds a `nack@`, an `rsp@`, or a copy of the Empty ACK was delivered -/
+theorem sim_closed_loop_dn {Δ : Nat} {sim : Sim} (h : SimStart Δ sim) (hp : sim.s.pers = .dn) (fuel : Nat) :
+    simRsp (Sim.run (fuel + 1) sim) =
+      simRsp sim + nDelivered (respFor sim.s (firstReq sim)) (simEvents fuel (firstSend sim)) ∧
+    simNack (Sim.run (fuel + 1) sim) ≤ simNack sim + 1 ∧
+    ((Sim.run (fuel + 1) sim).c.L.sendq = [] →
+      simNack (Sim.run (fuel + 1) sim) = simNack sim + 1 ∨ simRsp sim + 1 ≤ simRsp (Sim.run (fuel + 1) sim) ∨
+      ∃ e ∈ simEvents fuel (firstSend sim), isEAckS (firstReq sim) e) := by
+  obtain ⟨_, es, a1, a2, a3, a4, a5⟩ := sim_run_is_sys_run h fuel
+  obtain ⟨b1, b2, _, b4⟩ := closed_loop_dn h.hreq sim.s h.hq hp sim.c h.hc sim.now sim.cT Δ es a2
+  rw [← a1, nDelivered_erase]
+  refine ⟨by omega, by omega, fun hq => ?_⟩
+  rw [← a3.hc] at hq
+  rcases b4 hq with b | b | b
+  · left; omega
+  · right; left; omega
+  · right; right; exact exists_erase (isEAckS_erase _) es b
+
+/-- **`closed_loop_dn_never_both` read on `Sim.run`** (no response copy delivered after the NACK among the events of the run):
+    a `nack@` entry excludes any `rsp@` entry -/
+theorem sim_closed_loop_dn_never_both {Δ : Nat} {sim : Sim} (h : SimStart Δ sim) (hp : sim.s.pers = .dn) (fuel : Nat)
+    (hlate : SysNoLate (respFor sim.s (firstReq sim)) (Sys.start sim.c sim.s sim.now (firstReq sim) sim.cT)
+      (simEvents fuel (firstSend sim))) :
+    simNack (Sim.run (fuel + 1) sim) = simNack sim + 1 → simRsp (Sim.run (fuel + 1) sim) = simRsp sim := by
+  obtain ⟨_, es, a1, a2, a3, a4, a5⟩ := sim_run_is_sys_run h fuel
+  have hl : SysNoLate (respFor sim.s (firstReq sim)) (Sys.start sim.c sim.s sim.now (firstReq sim) sim.cT) es := by
+    rw [← a1] at hlate; exact (sysNoLate_erase _ es _).mp hlate
+  intro hk
+  have := closed_loop_dn_never_both h.hreq sim.s h.hq hp sim.c h.hc sim.now sim.cT Δ es a2 hl (by omega)
+  omega
+
+/-- **`closed_loop_da` read on `Sim.run`**: `da+` server whose response message id differs from the request's: at most one
+    `rsp@` entry — exactly one iff a copy of the response is delivered among the events of the run —, at most one `nack@`
+    entry, and a quiet client has a `nack@` entry or received a copy of the Empty ACK -/
+theorem sim_closed_loop_da {Δ : Nat} {sim : Sim} (h : SimStart Δ sim) (hp : sim.s.pers = .da)
+    (hm : (sim.s.txMid + 1) % 65536 ≠ (firstReq sim).mid) (hfresh : fresh sim.c (respFor sim.s (firstReq sim)))
+    (fuel : Nat) :
+    simRsp (Sim.run (fuel + 1) sim) =
+      simRsp sim + min 1 (nDelivered (respFor sim.s (firstReq sim)) (simEvents fuel (firstSend sim))) ∧
+    simNack (Sim.run (fuel + 1) sim) ≤ simNack sim + 1 ∧
+    ((Sim.run (fuel + 1) sim).c.L.sendq = [] →
+      simNack (Sim.run (fuel + 1) sim) = simNack sim + 1 ∨
+      ∃ e ∈ simEvents fuel (firstSend sim), isEAckS (firstReq sim) e) := by
+  obtain ⟨_, es, a1, a2, a3, a4, a5⟩ := sim_run_is_sys_run h fuel
+  obtain ⟨b1, b2, _, b4⟩ := closed_loop_da h.hreq sim.s h.hq hp hm sim.c h.hc hfresh sim.now sim.cT Δ es a2
+  rw [← a1, nDelivered_erase]
+  refine ⟨by omega, by omega, fun hq => ?_⟩
+  rw [← a3.hc] at hq
+  rcases b4 hq with b | b
+  · left; omega
+  · right; exact exists_erase (isEAckS_erase _) es b
+
+/-! ### the hypotheses are satisfiable (concrete non-trivial instances, by evaluation) -/
+
+/-- `closed_loop_dn`: Empty ACK, then the NON response delivered twice ⇒ two handler calls, no NACK; splitting before the
+    second copy, the prefix contains a delivery of the response -/
+example :
+    let r := respFor wDn wReq
+    let pre : List SysEv := [.toS 1000 1100 wReq, .toC 1100 1200 (emptyAck 1001) true, .sApp 1400, .toC 1400 1500 r true]
+    let post : List SysEv := [.toC 1400 1600 r true, .cTick 3000]
+    SReq wReq ∧ SQuiet wDn wReq ∧ wDn.pers = .dn ∧
+    (Sys.start {} wDn 1000 wReq 2000).RunOk ackTimeout (pre ++ post) ∧ (∃ e ∈ pre, isRspS r e) ∧
+    nDelivered r (pre ++ post) = 2 ∧ nRsp ((Sys.start {} wDn 1000 wReq 2000).run (pre ++ post)).2 = 2 ∧
+    (∃ e ∈ pre ++ post, isEAckS wReq e) := by
+  refine ⟨⟨by decide, by decide⟩, ⟨by decide, by decide, by decide, by decide, by decide⟩, by decide, by decide, by decide,
+    by decide, by decide, by decide⟩
+
+/-- `closed_loop_dn_never_both`: every datagram lost ⇒ `SysNoLate` holds, one NACK, no handler call, client quiet -/
+example :
+    let es : List SysEv := [.cTick 3000, .cTick 7000, .cTick 15000, .cTick 31000, .cTick 63000]
+    (Sys.start {} wDn 1000 wReq 2000).RunOk ackTimeout es ∧
+    SysNoLate (respFor wDn wReq) (Sys.start {} wDn 1000 wReq 2000) es ∧
+    nNack ((Sys.start {} wDn 1000 wReq 2000).run es).2 = 1 ∧ nRsp ((Sys.start {} wDn 1000 wReq 2000).run es).2 = 0 ∧
+    ((Sys.start {} wDn 1000 wReq 2000).run es).1.c.L.sendq = [] := by
+  refine ⟨by decide, by decide, by decide, by decide, by decide⟩
+
+/-- `closed_loop_da` / `closed_loop_da_both_iff`: the run of `da_response_then_nack_witness` — foreign message id, a copy of
+    the response delivered, no Empty ACK delivered, the request given up ⇒ both -/
+example :
+    let r := respFor wDa wReq
+    let es : List SysEv := [.toS 1000 1100 wReq, .sApp 1400, .toC 1400 1500 r true,
+                            .cTick 3000, .cTick 7000, .cTick 15000, .cTick 31000, .cTick 63000]
+    SReq wReq ∧ SQuiet wDa wReq ∧ wDa.pers = .da ∧ (wDa.txMid + 1) % 65536 ≠ wReq.mid ∧ fresh {} r ∧
+    (Sys.start {} wDa 1000 wReq 2000).RunOk ackTimeout es ∧ (∃ e ∈ es, isRspS r e) ∧ ¬ (∃ e ∈ es, isEAckS wReq e) ∧
+    nRsp ((Sys.start {} wDa 1000 wReq 2000).run es).2 = 1 ∧ nNack ((Sys.start {} wDa 1000 wReq 2000).run es).2 = 1 := by
+  refine ⟨⟨by decide, by decide⟩, ⟨by decide, by decide, by decide, by decide, by decide⟩, by decide, by decide,
+    ⟨fun _ => by decide, fun _ => by decide⟩, by decide, by decide, by decide, by decide, by decide⟩
+
+/-- `closed_loop_da_at_most_once`: the Empty ACK is delivered before any give-up ⇒ one conclusion (the response, delivered
+    twice, handed to the application once) -/
+example :
+    let r := respFor wDa wReq
+    let pre : List SysEv := [.toS 1000 1100 wReq, .toC 1100 1200 (emptyAck 1001) true]
+    let post : List SysEv := [.sApp 1400, .toC 1400 1500 r true, .toC 1400 1600 r true, .cTick 3000, .cTick 63000]
+    (Sys.start {} wDa 1000 wReq 2000).RunOk ackTimeout (pre ++ post) ∧ (∃ e ∈ pre, isEAckS wReq e) ∧
+    nNack ((Sys.start {} wDa 1000 wReq 2000).run pre).2 = 0 ∧ nDelivered r (pre ++ post) = 2 ∧
+    nRsp ((Sys.start {} wDa 1000 wReq 2000).run (pre ++ post)).2 = 1 ∧
+    nNack ((Sys.start {} wDa 1000 wReq 2000).run (pre ++ post)).2 = 0 := by
+  refine ⟨by decide, by decide, by decide, by decide, by decide, by decide⟩
+
+/-- `closed_loop_da_same_mid_partial`: the server's next message id happens to be the request's -/
+def wDaS : Server := { pers := .da, dedup := true, D := 300, T := 2500, txMid := 1000 }
+
+example :
+    let r := respFor wDaS wReq
+    let es : List SysEv := [.toS 1000 1100 wReq, .sApp 1400, .toC 1400 1500 r true, .cTick 3000]
+    SQuiet wDaS wReq ∧ (wDaS.txMid + 1) % 65536 = wReq.mid ∧ fresh {} r ∧
+    (Sys.start {} wDaS 1000 wReq 2000).RunOk ackTimeout es ∧ SysNoLate r (Sys.start {} wDaS 1000 wReq 2000) es ∧
+    nRsp ((Sys.start {} wDaS 1000 wReq 2000).run es).2 = 1 ∧ nNack ((Sys.start {} wDaS 1000 wReq 2000).run es).2 = 0 ∧
+    ((Sys.start {} wDaS 1000 wReq 2000).run es).1.c.L.sendq = [] := by
+  refine ⟨⟨by decide, by decide, by decide, by decide, by decide⟩, by decide, ⟨fun _ => by decide, fun _ => by decide⟩,
+    by decide, by decide, by decide, by decide, by decide⟩
+
+/-- `sim_closed_loop_dn`: `xchg dn+ 300 1000 5000 … q C1 - d100,d100,u100+300` — request and Empty ACK delivered, the NON
+    response duplicated: two `rsp@` entries, two deliveries among the events of the run -/
+def wSimDn : Sim :=
+  { s := wDn, cT := 2000, cmid := 1000, eager := false,
+    fates := [.deliver 100, .deliver 100, .dup 100 300], verdicts := [],
+    reqs := [{ con := true, method := 1, token := [0xc0, 7] }] }
+
+set_option maxRecDepth 8000 in
+example :
+    SimStart ackTimeout wSimDn ∧ wSimDn.s.pers = .dn ∧
+    nDelivered (respFor wSimDn.s (firstReq wSimDn)) (simEvents 30 (firstSend wSimDn)) = 2 ∧
+    simRsp (Sim.run 31 wSimDn) = 2 ∧ simNack (Sim.run 31 wSimDn) = 0 ∧ (Sim.run 31 wSimDn).c.L.sendq = [] := by
+  refine ⟨⟨by decide, by decide, rfl, rfl, rfl, rfl, ⟨by decide, by decide⟩, ⟨by decide, by decide, by decide, by decide, by decide⟩⟩,
+    by decide, by decide, by decide, by decide, by decide⟩
+
+/-- `sim_closed_loop_da`: `xchg da+ 300 1000 5000 … q C1 - d100,x,d100,x,x,x,x` — the Empty ACK and every retransmission
+    lost, the ACK-typed response delivered: one `rsp@` AND one `nack@` entry (O5) -/
+def wSimDa : Sim :=
+  { s := wDa, cT := 2000, cmid := 1000, eager := false,
+    fates := [.deliver 100, .drop, .deliver 100, .drop, .drop, .drop, .drop], verdicts := [],
+    reqs := [{ con := true, method := 1, token := [0xc0, 7] }] }
+
+set_option maxRecDepth 8000 in
+example :
+    SimStart ackTimeout wSimDa ∧ wSimDa.s.pers = .da ∧ (wSimDa.s.txMid + 1) % 65536 ≠ (firstReq wSimDa).mid ∧
+    fresh wSimDa.c (respFor wSimDa.s (firstReq wSimDa)) ∧
+    nDelivered (respFor wSimDa.s (firstReq wSimDa)) (simEvents 40 (firstSend wSimDa)) = 1 ∧
+    simRsp (Sim.run 41 wSimDa) = 1 ∧ simNack (Sim.run 41 wSimDa) = 1 ∧ (Sim.run 41 wSimDa).c.L.sendq = [] := by
+  refine ⟨⟨by decide, by decide, rfl, rfl, rfl, rfl, ⟨by decide, by decide⟩, ⟨by decide, by decide, by decide, by decide, by decide⟩⟩,
+    by decide, by decide, ⟨fun _ => by decide, fun _ => by decide⟩, by decide, by decide, by decide, by decide⟩
+
 end Coap.C07
